@@ -56,10 +56,17 @@ STMTS = {
     "s3": "LIMIT = 10",
     "t1": "class Other(object):\n    def f(self, dataset_name):\n        return dataset_name",
     "t2": "def set_cli_args_extra(argument_parser):\n    return argument_parser",
+    # look-alikes: names that contain the name of the definition being synchronised, placed *before* it
+    "s4": "class BaseConfigClass(object):\n    size: int = 1",
+    "s5": "def pre_set_cli_args(argument_parser):\n    return argument_parser",
+    # other parameter kinds in a neighbour: positional-only, *args, keyword-only, **kwargs (also a look-alike of `f`)
+    "s6": "def fetch(a, /, b=2, *args, c=None, **kw):\n    return a",
+    "t3": "async def fetch_async(url, *, retries: int = 3) -> str:\n    return url",
 }
 MEMBERS = {
     "m1": "limit: int = 3",
     "m2": "def g(self, epochs):\n    return epochs",
+    "m3": "def fetch(self, x, /, y=1):\n    return x",
 }
 
 
@@ -235,9 +242,22 @@ def _digest(path):
         return hashlib.sha256(f.read()).hexdigest()[:16]
 
 
-def run_sync(root, truth, given, ctx, fault=None, via_cli=False):
+def spelled(root, spell):
+    """The directory as it is named on the command line: as it is, through a symbolic link, or relative to the cwd."""
+    if spell == "link":
+        link = root + "-lnk"
+        if not os.path.islink(link):
+            os.symlink(root, link)
+        return link
+    if spell == "rel":
+        return os.path.join(".", "..", os.path.basename(root))
+    return root
+
+
+def run_sync(root, truth, given, ctx, fault=None, via_cli=False, spell="plain"):
     """One invocation.  Returns dict(exc, report, printed, status)."""
-    paths = _paths(root)
+    real = _paths(root)
+    paths = _paths(spelled(root, spell))      # what the command line says; `real` is where the files are
     fname = "C.f" if ctx == "method" else "f"
     names = {"argparse": "set_cli_args", "class": "ConfigClass", "function": fname}
     if via_cli:
@@ -246,6 +266,7 @@ def run_sync(root, truth, given, ctx, fault=None, via_cli=False):
             if k in given:
                 argv += ["--" + NS_KEY[k].replace("_", "-"), paths[k], "--" + NS_KEY[k].replace("_", "-") + "-name", names[k]]
         p = subprocess.run([PY, "-m", "doctrans"] + argv, cwd=root, env=child_env(), stdout=subprocess.PIPE, stderr=subprocess.PIPE, text=True)
+        paths = {k: (os.path.join(root, v) if not os.path.isabs(v) else v) for k, v in paths.items()}
         out = p.stdout
         exc = "none" if p.returncode == 0 and "Traceback" not in p.stderr else ("exit%d" % p.returncode if "Traceback" not in p.stderr else
                                                                                 p.stderr.strip().splitlines()[-1].split(":")[0])
@@ -262,11 +283,14 @@ def run_sync(root, truth, given, ctx, fault=None, via_cli=False):
         buf = io.StringIO()
         exc, eff = "none", None
         undo = []
+        cwd = os.getcwd()
         try:
+            os.chdir(root)
             if fault:
                 undo = _inject(fault, emit, conformance)
             with contextlib.redirect_stdout(buf):
-                eff = conformance.ground_truth(args, os.path.realpath(paths[truth]))
+                # __main__ hands over the truth file as realpath(expanduser(<what was typed>))
+                eff = conformance.ground_truth(args, os.path.realpath(os.path.expanduser(paths[truth])))
         except Fault:
             exc = "Fault"
         except BaseException as e:      # noqa: B902  (SystemExit included)
@@ -274,6 +298,8 @@ def run_sync(root, truth, given, ctx, fault=None, via_cli=False):
         finally:
             for u in undo:
                 u()
+            os.chdir(cwd)
+        paths = {k: (os.path.join(root, v) if not os.path.isabs(v) else v) for k, v in paths.items()}
         out = buf.getvalue()
         report = {k: "none" for k in KINDS}
         if eff is not None:
@@ -386,7 +412,7 @@ def _run_history(h):
             fault = None
             if isinstance(step, (list, tuple)) and step[0] == "fault":
                 fault = tuple(step[1:])
-            res = run_sync(root, h["truth"], h["given"], ctx, fault=fault, via_cli=(step == "sync_cli"))
+            res = run_sync(root, h["truth"], h["given"], ctx, fault=fault, via_cli=(step == "sync_cli"), spell=h.get("spell", "plain"))
             after = {k: _digest(paths[k]) for k in KINDS}
             ev = {"a": "sync", "exc": res["exc"], "fault": ("none" if not fault else ":".join(map(str, fault))),
                   "post": {k: observe(paths[k], k, ctx) for k in KINDS},
@@ -405,17 +431,19 @@ def _run_history(h):
         return trace, {"history": h, "concrete": concrete}
     finally:
         shutil.rmtree(root, ignore_errors=True)
+        if os.path.islink(root + "-lnk"):
+            os.unlink(root + "-lnk")
 
 
 # ------------------------------------------------------------------------------------------------ scenarios
 
 def pre_states(kind, ctx, rnd, rich):
     """Abstract pre-states of a *target* file (Sync.tla: PreStates, refined with frames and newline)."""
-    frames = [([], []), (["s1"], []), (["s1", "s2"], ["t1"]), (["s3"], ["t2"])]
+    frames = [([], []), (["s1"], []), (["s1", "s2"], ["t1"]), (["s4", "s5", "s6"], ["t3"]), (["s3"], ["t2"])]
     if kind == "function" and ctx == "method":
-        frames = [([], []), (["s1", "C.m1"], ["C.m2"]), (["s2", "C.m1"], ["C.m2", "t1"]), ([], ["C.m2"])]
+        frames = [([], []), (["s1", "C.m1"], ["C.m2"]), (["s2", "C.m1"], ["C.m2", "t1"]), (["s6", "C.m3"], ["C.m2", "t3"]), ([], ["C.m2"])]
     out = [{"st": "missing"}, {"st": "empty"}]
-    for b, a in (frames if rich else frames[:3]):
+    for b, a in (frames if rich else frames[:4]):
         out.append({"st": "mod", "b": b, "d": "absent", "a": a, "nl": True})
         for d in ("v1", "v2"):
             out.append({"st": "mod", "b": b, "d": d, "a": a, "canon": True, "nl": True})
@@ -485,6 +513,8 @@ def histories(prop, thorough, rnd):
         hs = must + rnd.sample(rest, min(len(rest), keep - len(must)))
     for i, h in enumerate(hs):
         h["id"] = "h%d" % i
+        # how the files are named on the command line (Sync.tla: spell): plain, through a symbolic link, relative
+        h["spell"] = {1: "link", 3: "rel"}.get(i % 5, "plain")
     return hs
 
 
@@ -539,7 +569,9 @@ def feat_of(trace, hist, step, clause, kind):
                  post_st=a["st"], post_d=("agree" if a["d"] == cur[trace["truth"]]["d"] else a["d"]),
                  frame=bool(b["b"] or b["a"]), extra=any("extra:" in x for x in a["b"] + a["a"]),
                  changed=e["changed"][kind], report=e["report"][kind], printed=e["printed"][kind],
-                 init_pre=_init_class(hist, kind), is_truth=(kind == trace["truth"]), moddoc=("s0" in b["b"]))
+                 init_pre=_init_class(hist, kind), is_truth=(kind == trace["truth"]), moddoc=("s0" in b["b"]),
+                 lookalike=any(x in b["b"] for x in ("s4", "s5", "s6", "C.m3")))
+    f["spell"] = hist.get("spell", "plain")
     return f
 
 
